@@ -15,6 +15,8 @@ Envs == <<
   [x |-> IntV(3),      y |-> IntV(0),      z |-> FracV(1, 2)] @@ Common,
   [x |-> IntV(1),      y |-> IntV(-1),     z |-> IntV(0)]     @@ Common,
   [x |-> IntV(-2),     y |-> FracV(5, 2),  z |-> IntV(2)]     @@ Common,
+  \* the boundary of every comparison: all operands equal
+  [x |-> IntV(2),      y |-> IntV(2),      z |-> IntV(2)]     @@ Common,
   \* non-commuting operands: products must keep their order
   [x |-> WordV(<< "a" >>), y |-> WordV(<< "b" >>), z |-> WordV(<< "c" >>)] @@ Common
 >>
